@@ -28,7 +28,7 @@ CHECKS = {
          "runtime monitor: per-job failure counter automaton over announced events"),
  "C10": ("E4 journal lab", "5/C10", "every record boundary (and random byte offsets inside records) of journals written by the real server inside simulation runs is restored through the real StateRestorer into a fresh server and compared with an independent reference fold; plus simulation runs with crash/restart actions",
          "fault enumeration: restore at every journal record boundary + torn tails, compared with a reference fold"),
- "C11": ("E4 journal lab", "5/C11", "id counters after restore vs. every id mentioned in the journal prefix at every cut (also on pruned journals); ids issued through the real submit/registration paths in simulation runs with chains of restarts",
+ "C11": ("E4 journal lab", "5/C11", "id counters after restore vs. every id mentioned in the journal prefix at every cut (also on pruned journals); ids issued through the real submit/registration paths in simulation runs with chains of restarts; queue ids: random create/remove/restart chains through the real autoalloc state, journal writer, restorer and the re-adding of restored queues",
          "fault enumeration: id high-water-mark oracle at every journal cut + restart chains"),
  "C12": ("E4 journal lab", "5/C12", "metamorphic comparison restore(J) vs restore(prune(J)) with the prune executed by the real journal thread (tmp file, rename, reopen) at the moments and with the live sets of real prune requests; appended records, double prune",
          "metamorphic runtime check: restore of pruned vs. unpruned journal"),
